@@ -113,6 +113,105 @@ Section Top.
     destruct e1; inversion H; reflexivity.
   Qed.
 
+  (** ** A registered MPD has all its representations (scan and write mode) *)
+
+  Lemma lookup_upsert_same {V} k (v : V) l : lookup k (upsert k v l) = Some v.
+  Proof.
+    induction l as [|[k1 v1] l IH]; cbn [upsert lookup]; [now rewrite String.eqb_refl|].
+    destruct (String.eqb k k1) eqn:E; cbn [lookup]; [now rewrite String.eqb_refl|]. now rewrite E.
+  Qed.
+
+  Lemma lookup_upsert_mono {V} k k2 (v : V) l : lookup k2 l <> None -> lookup k2 (upsert k v l) <> None.
+  Proof.
+    induction l as [|[k1 v1] l IH]; cbn [upsert lookup]; [congruence|].
+    destruct (String.eqb k k1) eqn:E; cbn [lookup].
+    - apply String.eqb_eq in E. subst k1. destruct (String.eqb k2 k); congruence.
+    - destruct (String.eqb k2 k1); [congruence|exact IH].
+  Qed.
+
+  Lemma scan_rep_id m r : scan_rep m = Ok r -> r_id r = m_id m.
+  Proof.
+    unfold scan_rep. intros H.
+    match type of H with (do rp <- ?T; _) = _ => destruct T as [rp| |] eqn:Ea end; cbn [bind] in H; try discriminate.
+    assert (Hid : r_id rp = m_id m).
+    { unfold add_init in Ea. cbn [r_mediauri r_ctype r_mediats r_preenc] in Ea.
+      destruct (uri_kind (m_mediauri m)); try discriminate;
+        (destruct (String.eqb (m_ctype m) "image"); [inversion Ea; reflexivity|]);
+        (destruct (m_init m); [discriminate|]); cbn in Ea; inversion Ea; reflexivity. }
+    match type of H with (do tab <- ?T; _) = _ => destruct T as [[[mediats sg] dsd]| |] end; cbn [bind] in H; try discriminate.
+    inversion H; subst r; cbn. exact Hid.
+  Qed.
+
+  Definition keys_kept (a a' : asset) : Prop := forall k, lookup k (a_reps a) <> None -> lookup k (a_reps a') <> None.
+
+  Lemma load_reps_complete md apath actype : use_cache md = false -> forall reps a c a' c',
+    load_reps B enc dec md apath actype reps a c = Ok (a', c', None) ->
+    keys_kept a a' /\ forall b m, In (b, m) reps -> lookup (m_id m) (a_reps a') <> None.
+  Proof.
+    intros Hnc. induction reps as [|[b m] reps IH]; intros a c a' c' H; cbn [Cache.load_reps] in H.
+    - inversion H; subst. split; [intros k Hk; exact Hk|intros b m []].
+    - destruct b; [discriminate|].
+      destruct (lookup (m_id m) (a_reps a)) as [x|] eqn:El.
+      + destruct (IH _ _ _ _ H) as [Hk Hall]. split; [exact Hk|].
+        intros b' m' [E|Hin]; [inversion E; subst; apply Hk; congruence|eapply Hall; eauto].
+      + rewrite (load_rep_nocache B enc dec md _ m Hnc) in H.
+        destruct (scan_rep m) as [r| |] eqn:Es; try discriminate.
+        destruct (lenZ (r_segs r) =? 0); [discriminate|].
+        destruct (String.eqb actype "audio" && match r_const r with Some d => d =? 0 | None => true end); [discriminate|].
+        destruct (IH _ _ _ _ H) as [Hk Hall].
+        assert (Hadd : keys_kept a (add_rep a r)) by (intros k Hx; cbn; apply lookup_upsert_mono; exact Hx).
+        split; [intros k Hx; apply Hk, Hadd, Hx|].
+        intros b' m' [E|Hin]; [|eapply Hall; eauto]. inversion E; subst. apply Hk. cbn.
+        rewrite (scan_rep_id _ _ Es), lookup_upsert_same. discriminate.
+  Qed.
+
+  Lemma load_sets_complete md apath : use_cache md = false -> forall sets a c a' c',
+    load_sets B enc dec md apath sets a c = Ok (a', c', None) ->
+    keys_kept a a' /\ forall s b m, In s sets -> In (b, m) (as_reps s) -> lookup (m_id m) (a_reps a') <> None.
+  Proof.
+    intros Hnc. induction sets as [|s sets IH]; intros a c a' c' H; cbn [Cache.load_sets] in H.
+    - inversion H; subst. split; [intros k Hk; exact Hk|intros s b m []].
+    - destruct (negb (as_has_template s)); [discriminate|].
+      destruct (load_reps B enc dec md apath (as_ctype s) (as_reps s) a c) as [[[a1 c1] e1]| |] eqn:Er; cbn [bind] in H; try discriminate.
+      destruct e1; [discriminate|].
+      destruct (load_reps_complete md apath (as_ctype s) Hnc _ _ _ _ _ Er) as [Hk1 Hall1].
+      destruct (IH _ _ _ _ H) as [Hk2 Hall2].
+      split; [intros k Hx; apply Hk2, Hk1, Hx|].
+      intros s' b m [<-|Hin] Hm; [apply Hk2; eapply Hall1; eauto|eapply Hall2; eauto].
+  Qed.
+
+  (** When loadAsset registers an MPD (scan or write mode), every representation the MPD lists is
+      loaded in the asset, and nothing that was loaded before is lost. *)
+  Theorem load_asset_complete md apath name sets a c a' c' :
+    use_cache md = false ->
+    load_asset B enc dec md apath name (MOk sets) a c = Ok (a', c', None) ->
+    In name (a_mpds a') /\ keys_kept a a' /\
+    forall s b m, In s sets -> In (b, m) (as_reps s) -> lookup (m_id m) (a_reps a') <> None.
+  Proof.
+    intros Hnc H. cbn [Cache.load_asset] in H.
+    match type of H with (do r <- load_sets _ _ _ _ _ _ ?A1 _; _) = _ => set (a1 := A1) in * end.
+    destruct (load_sets B enc dec md apath sets a1 c) as [[[x1 c1] e1]| |] eqn:Es; cbn [bind] in H; try discriminate.
+    destruct e1; inversion H; subst.
+    destruct (load_sets_complete md apath Hnc _ _ _ _ _ Es) as [Hk Hall].
+    split; [|split; [exact Hk|exact Hall]].
+    (* the MPD name was appended before loading and load_sets keeps a_mpds *)
+    assert (Hm : forall md0 sets0 a0 c0 a2 c2 e2, load_sets B enc dec md0 apath sets0 a0 c0 = Ok (a2, c2, e2) -> a_mpds a2 = a_mpds a0).
+    { assert (Hr : forall md0 ct reps0 a0 c0 a2 c2 e2, load_reps B enc dec md0 apath ct reps0 a0 c0 = Ok (a2, c2, e2) -> a_mpds a2 = a_mpds a0).
+      { intros md0 ct. induction reps0 as [|[b0 m0] reps0 IHr]; intros a0 c0 a2 c2 e2 Hx; cbn [Cache.load_reps] in Hx; [inversion Hx; reflexivity|].
+        destruct b0; [inversion Hx; reflexivity|].
+        destruct (lookup (m_id m0) (a_reps a0)); [eapply IHr; eauto|].
+        destruct (Cache.load_rep B enc dec md0 (c0 apath (m_id m0)) m0) as [rr w].
+        destruct rr as [r0| |]; try (inversion Hx; reflexivity); try discriminate.
+        destruct (lenZ (r_segs r0) =? 0); [inversion Hx; reflexivity|].
+        destruct (String.eqb ct "audio" && match r_const r0 with Some d => d =? 0 | None => true end); [inversion Hx; reflexivity|].
+        rewrite (IHr _ _ _ _ _ Hx). reflexivity. }
+      intros md0. induction sets0 as [|s0 sets0 IHs]; intros a0 c0 a2 c2 e2 Hx; cbn [Cache.load_sets] in Hx; [inversion Hx; reflexivity|].
+      destruct (negb (as_has_template s0)); [inversion Hx; reflexivity|].
+      destruct (load_reps B enc dec md0 apath (as_ctype s0) (as_reps s0) a0 c0) as [[[y1 d1] f1]| |] eqn:Ey; cbn [bind] in Hx; try discriminate.
+      destruct f1; [inversion Hx; subst; eapply Hr; eauto|]. rewrite (IHs _ _ _ _ _ Hx). eapply Hr; eauto. }
+    rewrite (Hm _ _ _ _ _ _ _ Es). subst a1. cbn. apply in_or_app. right. now left.
+  Qed.
+
   (** End to end: start in write mode over an empty metadata directory, then start from the
       directory it left (or from any part of it: files may be missing): same assets, same stored
       fields, same admission decisions, same start-up errors as a scanning server. *)
